@@ -351,6 +351,20 @@ class NBuilder(object):
                 return cls(k, mode, "configured")
         return _T()
 
+    def settings(self, values, is_global=False):
+        vals = dict(values)
+
+        class _Settings(object):
+            def get(self_inner, path, **kw):
+                return vals[".".join(path)]
+            get_boolean = getBoolean = get_int = get_float = get
+        st = _Settings()
+        if is_global:
+            import importlib
+            m = importlib.import_module(self.pkg)
+            m.settings = lambda: st
+        return st
+
     def plugin_manager(self):
         return NPluginManager()
 
